@@ -93,6 +93,15 @@ CLAIMED = {
             "alignment per version, no silent drop of a parameter (named ones never), type stability across versions, wire signatures "
             "against the reference table, and that each primitive writes what it reads. Value-level round-trips and varint arithmetic "
             "are not decided."),
+    "C19": ("must-call chains on the CFGs of stop()/close(), release table of every task/timer creation site, cancel-then-await "
+            "protection analysis (which suspension points of the cancelled coroutine let CancelledError escape), closing-aware cycle "
+            "analysis of every suspending while-loop in the code stop() waits for, dominance rules on the closed flags",
+            "Decides: consumer.stop()/producer.stop() must-reach every closer in order on all normal paths; every task and timer handle the "
+            "package keeps is cancelled or awaited by a closer; no closer can end with CancelledError because of a task it cancelled itself; "
+            "every retry loop that stop() waits for (not cancels) consults the closing flag or is bounded for a stated reason; waits on the "
+            "coordination path include the closing future; stop is idempotent and later API calls raise the stopped/closed error; LeaveGroup "
+            "is sent exactly for dynamic members with a generation. The numeric latency bound and task leaks that depend on run-time "
+            "callbacks are not decided."),
 }
 
 NA = {
